@@ -23,7 +23,7 @@ func itemGen() *rapid.Generator[gen.Item] {
 	anyItem := gen.AnyItem(gen.TokJSONKey, 1)
 	long := gen.BoundaryString(gen.TokJSONKey)
 	return rapid.Custom(func(t *rapid.T) gen.Item {
-		if rapid.IntRange(0, 59).Draw(t, "long") == 0 {
+		if rapid.IntRange(0, 199).Draw(t, "long") == 0 {
 			return gen.S(long.Draw(t, "longv"))
 		}
 		switch rapid.IntRange(0, 19).Draw(t, "special") {
